@@ -18,6 +18,7 @@ import TracingModel.Core.ReloadDriver
 import TracingModel.Core.RegRaceDriver
 import TracingModel.Core.WritersDriver
 import TracingModel.Core.JsonDriver
+import TracingModel.Core.NonBlockingDriver
 
 open TM TM.Wire
 
@@ -67,6 +68,7 @@ def dispatch (prop mode : String) : Option (List String → String) :=
   | "C09", "modelfilt" => some FilteringDriver.model
   | "C09", "specfilt" => some FilteringDriver.spec
   | "C08", "model" => some DirectiveDriver.model2
+  | "C15", "model" => some NonBlockingDriver.model
   | "C14", "model" => some JsonDriver.model
   | "C13", "model" => some WritersDriver.model
   | "C13", "spec" => some WritersDriver.spec
